@@ -1,5 +1,10 @@
 use crate::state::command::EntryCommand;
+#[cfg(not(kani))]
 use bytes::{Buf, BufMut, Bytes, BytesMut};
+#[cfg(kani)]
+use bytes::{Buf, Bytes};
+#[cfg(kani)]
+use iggy::verif_model::bytesmut::{BufMut, BytesMut};
 use iggy::bytes_serializable::BytesSerializable;
 use iggy::error::IggyError;
 use iggy::utils::checksum;
